@@ -36,6 +36,7 @@ def run(ctx):
                                        "tables", "atomics.json")))
     ctx.step(common.atomic_floors, ctx, "C07.orders", sorted(atab["fields"]), floor=80)
     ctx.step(mutable_state, ctx)
+    ctx.step(lock_ordered_atomics, ctx, tab)
     ctx.step(common.handle_deref_lifetime, ctx, "C07.lifetime",
              ["gmlc::libguarded::" + c for c in ("guarded", "guarded_opt", "shared_guarded", "shared_guarded_opt", "ordered_guarded",
                                                  "deferred_guarded", "atomic_guarded", "lr_guarded", "cow_guarded")], floor=4)
@@ -46,6 +47,29 @@ def run(ctx):
     if ctx.tier == "thorough":
         from ..ircheck import cross_check
         ctx.step(cross_check, ctx, "C07.ir", REPO, (0, 1, 2, 3))
+
+
+def lock_ordered_atomics(ctx, tab):
+    """an atomic flag with a paired mutex may be read weaker than acquire by code that holds the mutex - the mutex orders
+    it after the stores - but only as long as every store is made with that mutex held.  Where some load is weaker than
+    acquire, the stores of that flag are therefore held to the lock (for flags that are always read acquire / seq_cst the
+    floors of C07.orders are enough, and a store outside the mutex is no data race)"""
+    from ..engine import atomic_ops, atomic_field_of, mo_at_least
+    from ..guards import class_functions
+    rid = "C07.lockset"
+    for cls in sorted(tab):
+        for fld, ent in tab[cls].items():
+            if ent.get("kind") != "atomic" or not ent.get("guard"):
+                continue
+            weak = []
+            for f, top in class_functions(ctx.fb, cls):
+                for op in atomic_ops(f):
+                    if op["op"] == "load" and atomic_field_of(f, op) == (cls, fld) and not mo_at_least(op["order"], "acquire"):
+                        weak.append((f, op))
+            if weak:
+                ctx.note("%s::%s is read weaker than acquire at %s: its stores are checked against %s" % (
+                    cls, fld, weak[0][0].loc(weak[0][1]["st"]), ent["guard"]))
+                check_guarded_fields(ctx, rid, cls, only_fields=[fld], skip_atomic=False)
 
 
 def mutable_state(ctx):
